@@ -8,6 +8,7 @@ package http
 
 import (
 	"bytes"
+	"crypto/ed25519"
 	"encoding/json"
 	"io"
 	"io/ioutil"
@@ -163,7 +164,8 @@ func (w *zzWorld) Handle(ev interface{}) { w.emitted = append(w.emitted, ev) }
 
 func newWorld() *zzWorld {
 	w := &zzWorld{}
-	w.dev = &zzDevice{name: "acc", pub: make([]byte, 32), priv: make([]byte, 64), pin: "001-02-003"}
+	pub, priv, _ := ed25519.GenerateKey(nil)
+	w.dev = &zzDevice{name: "acc", pub: pub, priv: priv, pin: "001-02-003"}
 	w.db = &zzDB{}
 	w.ctx = hap.NewContextForSecuredDevice(w.dev)
 	w.container = accessory.NewContainer()
@@ -207,7 +209,10 @@ func zzRequest(method, path, remote string, form url.Values, body []byte) *http.
 var _ crypto.Cryptographer = zzCrypt{}
 var _ = verif.Reach
 
-func dbEntity(name string) db.Entity { return db.NewEntity(name, make([]byte, 32), nil) }
+func dbEntity(name string) db.Entity {
+	pub, _, _ := ed25519.GenerateKey(nil)
+	return db.NewEntity(name, pub, nil)
+}
 
 func zzFinite(name string) float64 {
 	f := verif.F64(name)
